@@ -110,6 +110,8 @@ pub struct Shared {
     pub cur_paused: Cell<bool>,
     pub expect_removed: Cell<Option<usize>>,
     pub drain_windows: Cell<u64>,
+    /// length of the dispatch log when the first worker was killed (usize::MAX = no fault yet)
+    pub first_fault_dispatch: Cell<usize>,
     pub paused_at_step_begin: Cell<bool>,
     pub armed_fault: Cell<Option<(usize, i32)>>,
     pub fault_fired_in_step: Cell<Option<(usize, i32)>>,
@@ -178,6 +180,7 @@ impl Shared {
             cur_paused: Cell::new(false),
             expect_removed: Cell::new(None),
             drain_windows: Cell::new(0),
+            first_fault_dispatch: Cell::new(usize::MAX),
             paused_at_step_begin: Cell::new(false),
             armed_fault: Cell::new(None),
             fault_fired_in_step: Cell::new(None),
@@ -312,6 +315,9 @@ impl Hooks for SimHooks {
             Point::AcceptOneIter { handles, avail, next } => {
                 let n = sh.accept_one_iters.get() + 1;
                 sh.accept_one_iters.set(n);
+                if std::env::var("SRVSIM_DEBUG").is_ok() {
+                    println!("  # accept_one view: handles {handles:?} avail {avail:?} next {next}");
+                }
                 if let Some(idx) = sh.expect_removed.take() {
                     // a failed send must remove that handle at once: the very next look at the
                     // rotation (same accept_one call, no waker processing in between) lacks it
